@@ -1,5 +1,642 @@
 import NibabelModel.Model.C18
-/-! Props/C18 — the property theorems for C18 (statements + proofs; helper lemmas live in Lemmas/). -/
+import NibabelModel.Lemmas.PySlice
+import NibabelModel.Lemmas.C18
+/-!
+  Props/C18 — property theorems for C18 (CIFTI-2 axes, header XML and matrix data stay mutually
+  consistent).  All statements are unbounded (any axis length, any index object, any slice).
+
+  * SeriesAxis: slicing / int indexing / concatenation describe exactly the indexed / concatenated
+    list of time points (`series_*`), and the pinned arithmetic did not (`series_orig_counterexample`).
+  * list-backed axes (Scalar/Label/Parcels/BrainModel): indexing the parallel arrays one by one and
+    re-running the constructor yields exactly the gather of the element descriptions at the NumPy
+    positions (`*_index_is_gather`, `positions_lt`, `gather_getElem`, `slice_positions_length`,
+    `int_index_is_element`); concatenation concatenates (`concat_lengths`, `bm_add_elements`).
+  * BrainModelAxis runs: `iter_structures` tiles the axis by maximal runs whose expansion is the name
+    list, and `from_index_mapping ∘ to_mapping` is the identity on element descriptions
+    (`runs_*`, `scatter_runs`, `bm_mapping_roundtrip`).
+
+  PARTIAL with respect to the property text: the XML layer and the NIfTI-2 container are not modelled
+  (trusted/external; exercised by the round-trip oracle only).
+-/
 namespace Nb.C18
+open Nb
+
+/-! ## SeriesAxis -/
+
+/-- `axis[slice]` for EVERY start/step/size and every valid slice: the time points of the new axis are
+    exactly `axis.time[slice]` (values and length), the unit is kept. -/
+theorem series_getitem_spec (a : Series) (s : PySlice) (hv : s.Valid) :
+    ∃ r, seriesGetSlice a s = .ok r ∧ r.elements = s.apply a.elements ∧
+      r.size = s.len a.size ∧ r.unit = a.unit := by
+  have hv' : ¬ s.stepVal = 0 := hv
+  refine ⟨⟨(s.indices a.size).1 * a.step + a.start, a.step * (s.indices a.size).2.2,
+    rangeLen (s.indices a.size).1 (s.indices a.size).2.1 (s.indices a.size).2.2, a.unit⟩,
+    by simp only [seriesGetSlice, hv', if_false], ?_, rfl, rfl⟩
+  simp only [Series.elements, PySlice.apply, PySlice.sel, rangeInts_length]
+  simp only [rangeInts, List.filterMap_map, List.map_map]
+  symm
+  apply filterMap_range_eq_map
+  intro k hk
+  have hb := PySlice.rangeInts_mem_bounds s a.size hv k hk
+  have hst : (s.indices a.size).2.2 = s.stepVal := rfl
+  simp only [Function.comp]
+  rw [hst]
+  have hlt : ((s.indices a.size).1 + (k : Int) * s.stepVal).toNat < a.size := by omega
+  have : (List.map (fun (k : Nat) => a.start + (k : Int) * a.step) (List.range a.size))[((s.indices a.size).1 + (k : Int) * s.stepVal).toNat]?
+      = some (a.start + (((s.indices a.size).1 + (k : Int) * s.stepVal).toNat : Int) * a.step) := by
+    simp [hlt]
+  rw [this]
+  have e : ((((s.indices a.size).1 + (k : Int) * s.stepVal).toNat : Nat) : Int) = (s.indices a.size).1 + (k : Int) * s.stepVal := by omega
+  rw [e]
+  congr 1
+  grind
+
+
+example : (⟨none, none, some 2⟩ : PySlice).Valid ∧
+    (seriesGetSlice ⟨0, 1, 5, 0⟩ ⟨none, none, some 2⟩).map Series.elements = .ok [0, 2, 4] := by decide
+
+/-- the length alone: `len(axis[slice]) = len(range(n)[slice])` -/
+theorem series_getitem_length (a : Series) (s : PySlice) (hv : s.Valid) :
+    ∃ r, seriesGetSlice a s = .ok r ∧ r.size = (s.sel a.size).length ∧
+      r.elements.length = (s.apply a.elements).length := by
+  obtain ⟨r, h1, h2, h3, _⟩ := series_getitem_spec a s hv
+  exact ⟨r, h1, by rw [h3, PySlice.sel_length], by rw [h2]⟩
+
+/-- a zero step is refused (ValueError, like `slice.indices`) -/
+theorem series_getitem_step0 (a : Series) (s : PySlice) (h : ¬ s.Valid) :
+    seriesGetSlice a s = .error .valueError := by
+  have : s.stepVal = 0 := by unfold PySlice.Valid at h; omega
+  simp [seriesGetSlice, this]
+
+/-- `axis[i]` for every Python int `i` (negative and out-of-range included): the same element as
+    `list(axis.time)[i]`, or IndexError exactly when the list raises IndexError. -/
+theorem series_int_spec (a : Series) (i : Int) :
+    seriesGetElement a i = npGet a.elements i := by
+  unfold seriesGetElement npGet pyIntIndex
+  simp only [Series.elements, rangeInts_length]
+  by_cases h1 : 0 ≤ i ∧ i < (a.size : Int)
+  · have hk : i.toNat < a.size := by omega
+    have h2 : ¬ i < 0 := by omega
+    have h3 : ¬ (i ≥ (a.size : Int) ∨ i < 0) := by omega
+    simp only [h1, h2, and_self, if_true, if_false, rangeInts_getElem? _ _ _ _ hk]
+    have e : ((i.toNat : Nat) : Int) = i := by omega
+    rw [e]; congr 1; grind
+  · by_cases h2 : i < 0 ∧ 0 ≤ i + (a.size : Int)
+    · have hk : (i + (a.size : Int)).toNat < a.size := by omega
+      have h3 : ¬ ((a.size : Int) + i ≥ (a.size : Int) ∨ (a.size : Int) + i < 0) := by omega
+      simp only [h1, h2, h3, and_self, if_true, if_false, rangeInts_getElem? _ _ _ _ hk]
+      have e : (((i + (a.size : Int)).toNat : Nat) : Int) = i + a.size := by omega
+      rw [e]; congr 1; grind
+    · simp only [h1, h2, if_false]
+      by_cases h4 : i < 0
+      · have h3 : (a.size : Int) + i < 0 := by omega
+        simp only [h4, h3, if_true, or_true]
+      · have h3 : i ≥ (a.size : Int) := by omega
+        simp only [h4, h3, if_false, if_true, true_or]
+
+example : seriesGetElement ⟨3, 2, 4, 0⟩ (-1) = .ok 9 ∧ seriesGetElement ⟨3, 2, 4, 0⟩ 4 = .error .indexError ∧
+    seriesGetElement ⟨3, 2, 4, 0⟩ (-5) = .error .indexError := by decide
+
+/-- `a + b`: refused unless step and unit agree; otherwise the result has `len a + len b` points that
+    continue `a` with its own step (the start of `b` is ignored, as documented), and it is the
+    concatenation of the two time lists exactly when `b` starts where `a` ends. -/
+theorem series_add_spec (a b : Series) :
+    (b.step = a.step ∧ b.unit = a.unit →
+      ∃ r, seriesAdd a b = .ok r ∧ r.size = a.size + b.size ∧ r.unit = a.unit ∧
+        r.elements = a.elements ++ rangeInts (a.start + (a.size : Int) * a.step) b.step b.size ∧
+        (b.start = a.start + (a.size : Int) * a.step → r.elements = a.elements ++ b.elements)) ∧
+    (¬ (b.step = a.step ∧ b.unit = a.unit) → seriesAdd a b = .error .valueError) := by
+  constructor
+  · rintro ⟨h1, h2⟩
+    have hel : (⟨a.start, a.step, a.size + b.size, a.unit⟩ : Series).elements
+        = a.elements ++ rangeInts (a.start + (a.size : Int) * a.step) b.step b.size := by
+      simp only [Series.elements, rangeInts, List.range_add, List.map_append, List.map_map, h1]
+      congr 1
+      apply List.map_congr_left
+      intro k _
+      simp only [Function.comp]
+      have : ((a.size + k : Nat) : Int) = (a.size : Int) + k := by omega
+      rw [this]; grind
+    refine ⟨⟨a.start, a.step, a.size + b.size, a.unit⟩, by simp [seriesAdd, h1, h2], rfl, rfl, hel, ?_⟩
+    intro hs
+    rw [hel, Series.elements, Series.elements, hs]
+  · intro h
+    unfold seriesAdd
+    by_cases h1 : b.step = a.step
+    · have h2 : b.unit ≠ a.unit := fun h2 => h ⟨h1, h2⟩
+      simp [h1, h2]
+    · simp [h1]
+
+example : seriesAdd ⟨0, 2, 3, 1⟩ ⟨6, 2, 2, 1⟩ = .ok ⟨0, 2, 5, 1⟩ := by decide
+
+/-- the pinned (pre-`fix:`) arithmetic: `SeriesAxis(0,1,5)[::2]` had 2 elements (3 are selected), and a
+    start below `-size` was not clamped (`[-7:]`). -/
+theorem series_orig_counterexample :
+    (seriesGetSliceOrig ⟨0, 1, 5, 0⟩ ⟨none, none, some 2⟩).size = 2 ∧
+    ((⟨none, none, some 2⟩ : PySlice).apply (⟨0, 1, 5, 0⟩ : Series).elements).length = 3 ∧
+    (seriesGetSliceOrig ⟨0, 1, 5, 0⟩ ⟨some (-7), none, none⟩).elements ≠
+      (⟨some (-7), none, none⟩ : PySlice).apply (⟨0, 1, 5, 0⟩ : Series).elements := by
+  decide
+
+
+/-! ## list-backed axes: indexing is a gather of the element descriptions -/
+
+/-- every position selected by a NumPy index on a length-`n` axis is `< n` -/
+theorem positions_lt (n : Nat) (idx : Index) (ps : List Nat) (h : positions n idx = .ok ps) :
+    ∀ p ∈ ps, p < n := positions_lt' n idx ps h
+
+example : positions 5 (.slice ⟨some (-9), none, some 2⟩) = .ok [0, 2, 4] ∧
+    positions 3 (.arr [-1, 0]) = .ok [2, 0] ∧ positions 3 (.mask [true, false, true]) = .ok [0, 2] ∧
+    positions 3 (.arr [3]) = .error .indexError ∧ positions 3 (.mask [true]) = .error .indexError := by
+  decide
+
+/-- a slice selects `len(range(n)[s])` positions -/
+theorem slice_positions_length (n : Nat) (s : PySlice) (ps : List Nat)
+    (h : positions n (.slice s) = .ok ps) : ps.length = s.len n := by
+  simp only [positions] at h
+  split at h
+  · cases h
+  · injection h with h; subst h; exact PySlice.sel_length s n
+
+/-- the `k`-th element of a gather is the element at the `k`-th position (so, with the theorems
+    below, element `k` of `axis[idx]` is element `positions[k]` of `axis`) -/
+theorem gather_getElem {α} (l : List α) (ps : List Nat) (h : ∀ p ∈ ps, p < l.length)
+    (k : Nat) (hk : k < ps.length) :
+    (gather l ps).length = ps.length ∧ (gather l ps)[k]? = l[ps[k]]? :=
+  ⟨gather_length l ps h, gather_getElem? l ps h k hk⟩
+
+/-- ScalarAxis: for EVERY axis and index object, `axis[idx]` fails exactly when NumPy refuses the
+    index, and otherwise its element descriptions are the gather of the original ones. -/
+theorem scalar_index_is_gather (a : Scalar) (hv : a.mta.length = a.name.length) (idx : Index) :
+    match positions a.size idx with
+    | .ok ps => ∃ r, scalarGetitem a idx = .ok r ∧ r.elements = gather a.elements ps ∧
+        r.size = ps.length ∧ r.mta.length = r.name.length
+    | .error e => scalarGetitem a idx = .error e := by
+  cases h : positions a.size idx with
+  | error e =>
+    simp only [scalarGetitem, npTake_error a.name idx e h]
+    rfl
+  | ok ps =>
+    have hlt := positions_lt' _ _ _ h
+    have h2 : positions a.mta.length idx = .ok ps := by rw [hv]; exact h
+    have hl1 := gather_length a.name ps hlt
+    have hl2 := gather_length a.mta ps (by rw [hv]; exact hlt)
+    refine ⟨⟨gather a.name ps, gather a.mta ps⟩, ?_, ?_, hl1, by simp [hl1, hl2]⟩
+    · simp only [scalarGetitem, npTake_ok a.name idx ps h, npTake_ok a.mta idx ps h2]
+      simp [scalarMk, hl1, hl2, bind, Except.bind]
+    · simp only [Scalar.elements]
+      rw [gather_zip _ _ hv.symm]
+
+
+example : (scalarGetitem ⟨[1, 2, 3], [4, 5, 6]⟩ (.arr [2, 0])).map Scalar.elements = .ok [(3, 6), (1, 4)] := by
+  decide
+
+/-- LabelAxis -/
+theorem label_index_is_gather (a : Label) (h1 : a.label.length = a.name.length)
+    (h2 : a.mta.length = a.name.length) (idx : Index) :
+    match positions a.size idx with
+    | .ok ps => ∃ r, labelGetitem a idx = .ok r ∧ r.elements = gather a.elements ps ∧
+        r.size = ps.length ∧ r.label.length = r.name.length ∧ r.mta.length = r.name.length
+    | .error e => labelGetitem a idx = .error e := by
+  cases h : positions a.size idx with
+  | error e =>
+    simp only [labelGetitem, npTake_error a.name idx e h]
+    rfl
+  | ok ps =>
+    have hlt := positions_lt' _ _ _ h
+    have p2 : positions a.label.length idx = .ok ps := by rw [h1]; exact h
+    have p3 : positions a.mta.length idx = .ok ps := by rw [h2]; exact h
+    have hl1 := gather_length a.name ps hlt
+    have hl2 := gather_length a.label ps (by rw [h1]; exact hlt)
+    have hl3 := gather_length a.mta ps (by rw [h2]; exact hlt)
+    refine ⟨⟨gather a.name ps, gather a.label ps, gather a.mta ps⟩, ?_, ?_, hl1, by simp [hl1, hl2],
+      by simp [hl1, hl3]⟩
+    · simp only [labelGetitem, npTake_ok a.name idx ps h, npTake_ok a.label idx ps p2,
+        npTake_ok a.mta idx ps p3]
+      simp [labelMk, hl1, hl2, hl3, bind, Except.bind]
+    · simp only [Label.elements]
+      rw [gather_zip3 _ _ _ h1 h2]
+
+example : (labelGetitem ⟨[1, 2, 3], [7, 8, 9], [4, 5, 6]⟩ (.mask [true, false, true])).map Label.elements
+    = .ok [(1, 7, 4), (3, 9, 6)] := by decide
+
+/-- ParcelsAxis (affine, volume shape and nvertices are carried over unchanged) -/
+theorem parcels_index_is_gather (a : Parcels) (h1 : a.voxels.length = a.name.length)
+    (h2 : a.vertices.length = a.name.length) (idx : Index) :
+    match positions a.size idx with
+    | .ok ps => ∃ r, parcelsGetitem a idx = .ok r ∧ r.elements = gather a.elements ps ∧
+        r.size = ps.length ∧ r.voxels.length = r.name.length ∧ r.vertices.length = r.name.length ∧
+        r.affine = a.affine ∧ r.shape = a.shape ∧ r.nvertices = a.nvertices
+    | .error e => parcelsGetitem a idx = .error e := by
+  cases h : positions a.size idx with
+  | error e =>
+    simp only [parcelsGetitem, npTake_error a.name idx e h]
+    rfl
+  | ok ps =>
+    have hlt := positions_lt' _ _ _ h
+    have p2 : positions a.voxels.length idx = .ok ps := by rw [h1]; exact h
+    have p3 : positions a.vertices.length idx = .ok ps := by rw [h2]; exact h
+    have hl1 := gather_length a.name ps hlt
+    have hl2 := gather_length a.voxels ps (by rw [h1]; exact hlt)
+    have hl3 := gather_length a.vertices ps (by rw [h2]; exact hlt)
+    refine ⟨⟨gather a.name ps, gather a.voxels ps, gather a.vertices ps, a.affine, a.shape, a.nvertices⟩,
+      ?_, ?_, hl1, by simp [hl1, hl2], by simp [hl1, hl3], rfl, rfl, rfl⟩
+    · simp only [parcelsGetitem, npTake_ok a.name idx ps h, npTake_ok a.voxels idx ps p2,
+        npTake_ok a.vertices idx ps p3]
+      simp [parcelsMk, hl1, hl2, hl3, bind, Except.bind]
+    · simp only [Parcels.elements]
+      rw [gather_zip3 _ _ _ h1 h2]
+
+
+example : (parcelsGetitem ⟨[1, 2, 3], [7, 8, 9], [4, 5, 6], some 1, some (2, 2, 2), [(0, 4)]⟩
+    (.slice ⟨none, none, some (-2)⟩)).map Parcels.elements = .ok [(3, 9, 6), (1, 7, 4)] := by decide
+
+/-- BrainModelAxis: the three parallel arrays are gathered, `nvertices` is pruned to the structures
+    still present, and the constructor checks are re-run.  For every VALID axis (`BM.Valid` is what the
+    constructor establishes, `bm_valid_of_mk`) and every index: NumPy's refusal is passed on, an EMPTY
+    selection is refused with ValueError (np.vectorize on a size-0 array — see known findings), and any
+    non-empty selection succeeds, is valid again, and describes exactly the gathered elements
+    (pruning never changes a surviving element from surface to voxel or back). -/
+theorem bm_index_is_gather (a : BM) (hv : a.Valid) (idx : Index) :
+    match positions a.size idx with
+    | .ok ps =>
+        if ps = [] then bmGetitem a idx = .error .valueError
+        else ∃ r, bmGetitem a idx = .ok r ∧ r.elements = gather a.elements ps ∧
+          r.size = ps.length ∧ r.Valid
+    | .error e => bmGetitem a idx = .error e := by
+  cases h : positions a.size idx with
+  | error e =>
+    simp only [bmGetitem, npTake_error a.name idx e h]
+    rfl
+  | ok ps =>
+    have hlt := positions_lt' _ _ _ h
+    have h2 : positions a.voxel.length idx = .ok ps := by rw [hv.lvox]; exact h
+    have h3 : positions a.vertex.length idx = .ok ps := by rw [hv.lvert]; exact h
+    have hl1 := gather_length a.name ps hlt
+    have hl2 := gather_length a.voxel ps (by rw [hv.lvox]; exact hlt)
+    have hl3 := gather_length a.vertex ps (by rw [hv.lvert]; exact hlt)
+    have hget : bmGetitem a idx = bmMk (gather a.name ps) (gather a.voxel ps) (gather a.vertex ps)
+        a.affine a.shape a.nvertices := by
+      simp only [bmGetitem, npTake_ok a.name idx ps h, npTake_ok a.voxel idx ps h2,
+        npTake_ok a.vertex idx ps h3]
+      rfl
+    by_cases hps : ps = []
+    · simp only [hps, if_true]
+      rw [hget, hps]
+      simp [gather, bmMk]
+    · simp only [hps, if_false]
+      have hne : gather a.name ps ≠ [] := by
+        intro hh; rw [hh] at hl1; simp at hl1; exact hps (List.eq_nil_of_length_eq_zero hl1.symm)
+      have hflags : surfFlags a.nvertices (gather a.name ps)
+          = gather (surfFlags a.nvertices a.name) ps := by
+        simp only [surfFlags, gather_map]
+      have hfl : (surfFlags a.nvertices a.name).length = a.name.length := by simp [surfFlags]
+      have hvert : vertBad (surfFlags a.nvertices (gather a.name ps)) (gather a.vertex ps) = false := by
+        rw [hflags]; unfold vertBad
+        rw [← gather_zip _ _ (by rw [hfl, hv.lvert])]
+        exact any_gather_false _ _ _ hv.vertOk
+      have hvox : voxBad (surfFlags a.nvertices (gather a.name ps)) (gather a.voxel ps) = false := by
+        rw [hflags]; unfold voxBad
+        rw [← gather_zip _ _ (by rw [hfl, hv.lvox])]
+        exact any_gather_false _ _ _ hv.voxOk
+      have hvol : (surfFlags a.nvertices (gather a.name ps)).all id = false →
+          a.affine.isSome ∧ a.shape.isSome := by
+        intro hall
+        apply hv.vol
+        rw [hflags] at hall
+        rw [List.all_eq_false] at hall ⊢
+        obtain ⟨x, hx, hxf⟩ := hall
+        exact ⟨x, gather_subset _ _ x hx, hxf⟩
+      have hok := bmMk_ok (gather a.name ps) (gather a.voxel ps) (gather a.vertex ps) a.affine a.shape
+        a.nvertices hne (by omega) (by omega) hvert hvox hvol
+      refine ⟨_, by rw [hget]; exact hok, ?_, by simpa [BM.size] using hl1, bmMk_valid _ _ _ _ _ _ _ hok⟩
+      simp only [BM.elements, elements_prune]
+      rw [gather_map, gather_zip3 _ _ _ hv.lvox hv.lvert]
+
+
+example : (bmGetitem ⟨[0, 1, 0], [(-1, -1, -1), (0, 1, 2), (-1, -1, -1)], [3, -1, 0], some 7, some (2, 3, 4), [(0, 4)]⟩
+    (.arr [-1, 0])).map (fun r => (r.elements, r.nvertices, r.affine)) = .ok ([.surf 0 0, .surf 0 3], [(0, 4)], none) := by
+  decide
+
+/-- the hypothesis `BM.Valid` is exactly what a successful constructor call gives -/
+theorem bm_valid_of_mk (name : List Nat) (voxel : List Vox) (vertex : List Int) (aff : Option Nat)
+    (shp : Option Shape) (nv : Dict) (r : BM) (h : bmMk name voxel vertex aff shp nv = .ok r) :
+    r.Valid := bmMk_valid name voxel vertex aff shp nv r h
+
+example : (bmMk [0, 1, 0] [(-1, -1, -1), (0, 1, 2), (-1, -1, -1)] [3, -1, 0] (some 7) (some (2, 3, 4))
+    [(0, 4), (5, 9)]).map (fun r => (r.nvertices, r.elements)) =
+    .ok ([(0, 4)], [.surf 0 3, .vox 1 (0, 1, 2), .surf 0 0]) := by decide
+
+/-- the empty selection is refused -/
+theorem bm_index_empty_refused (a : BM) (hv : a.Valid) (idx : Index)
+    (h : positions a.size idx = .ok []) : bmGetitem a idx = .error .valueError := by
+  have := bm_index_is_gather a hv idx
+  rw [h] at this
+  simpa using this
+
+/-- `axis[i]` for a Python int on each list-backed axis is element `i` of the description list
+    (NumPy int indexing: negative wraps once, out of range raises IndexError) -/
+theorem scalar_int (a : Scalar) (hv : a.mta.length = a.name.length) (i : Int) :
+    scalarGetElement a i = npGet a.elements i := by
+  rw [Scalar.elements, npGet_zip _ _ hv]; rfl
+
+theorem label_int (a : Label) (h1 : a.label.length = a.name.length) (h2 : a.mta.length = a.name.length)
+    (i : Int) : labelGetElement a i = npGet a.elements i := by
+  rw [Label.elements, npGet_zip3 _ _ _ h1 h2]; rfl
+
+theorem parcels_int (a : Parcels) (h1 : a.voxels.length = a.name.length)
+    (h2 : a.vertices.length = a.name.length) (i : Int) :
+    parcelsGetElement a i = npGet a.elements i := by
+  rw [Parcels.elements, npGet_zip3 _ _ _ h1 h2]; rfl
+
+theorem bm_int (a : BM) (hv : a.Valid) (i : Int) : bmGetElement a i = npGet a.elements i := by
+  rw [BM.elements, npGet_map, npGet_zip3 _ _ _ hv.lvox hv.lvert]
+  unfold bmGetElement
+  cases h : pyIntIndex a.name.length i with
+  | none =>
+    rw [npGet_none _ _ h]; rfl
+  | some k =>
+    obtain ⟨k1, e1⟩ := npGet_some a.name i k h
+    obtain ⟨k2, e2⟩ := npGet_some a.voxel i k (by rw [hv.lvox]; exact h)
+    obtain ⟨k3, e3⟩ := npGet_some a.vertex i k (by rw [hv.lvert]; exact h)
+    rw [e1, e2, e3]
+    simp only [bind, Except.bind, pure, Except.pure, Except.map, bmElem]
+    split <;> simp_all
+
+
+theorem int_index_is_element :
+    (∀ (a : Scalar) (i : Int), a.mta.length = a.name.length → scalarGetElement a i = npGet a.elements i) ∧
+    (∀ (a : Label) (i : Int), a.label.length = a.name.length → a.mta.length = a.name.length →
+      labelGetElement a i = npGet a.elements i) ∧
+    (∀ (a : Parcels) (i : Int), a.voxels.length = a.name.length → a.vertices.length = a.name.length →
+      parcelsGetElement a i = npGet a.elements i) ∧
+    (∀ (a : BM) (i : Int), a.Valid → bmGetElement a i = npGet a.elements i) :=
+  ⟨fun a i h => scalar_int a h i, fun a i h1 h2 => label_int a h1 h2 i,
+   fun a i h1 h2 => parcels_int a h1 h2 i, fun a i h => bm_int a h i⟩
+
+example : npGet [10, 20, 30] (-1) = .ok 30 ∧ npGet [10, 20, 30] 3 = (.error .indexError : Except Err Nat) := by
+  decide
+
+/-! ## concatenation -/
+
+/-- concatenation of the id-list axes -/
+theorem concat_lengths :
+    (∀ a b : Scalar, a.mta.length = a.name.length → b.mta.length = b.name.length →
+      ∃ r, scalarAdd a b = .ok r ∧ r.size = a.size + b.size ∧ r.elements = a.elements ++ b.elements) ∧
+    (∀ a b : Label, a.label.length = a.name.length → a.mta.length = a.name.length →
+      b.label.length = b.name.length → b.mta.length = b.name.length →
+      ∃ r, labelAdd a b = .ok r ∧ r.size = a.size + b.size ∧ r.elements = a.elements ++ b.elements) ∧
+    (∀ (a b : Parcels) (r : Parcels), a.voxels.length = a.name.length → a.vertices.length = a.name.length →
+      parcelsAdd a b = .ok r → r.size = a.size + b.size ∧ r.elements = a.elements ++ b.elements) := by
+  refine ⟨?_, ?_, ?_⟩
+  · intro a b ha hb
+    refine ⟨⟨a.name ++ b.name, a.mta ++ b.mta⟩, by simp [scalarAdd, scalarMk, ha, hb], by simp [Scalar.size], ?_⟩
+    simp only [Scalar.elements]
+    rw [List.zip_append ha.symm]
+  · intro a b h1 h2 h3 h4
+    refine ⟨⟨a.name ++ b.name, a.label ++ b.label, a.mta ++ b.mta⟩,
+      by simp [labelAdd, labelMk, h1, h2, h3, h4], by simp [Label.size], ?_⟩
+    simp only [Label.elements]
+    rw [zip3_append _ _ _ _ _ _ h1 h2]
+  · intro a b r h1 h2 h
+    unfold parcelsAdd at h
+    cases hm : mergeVolume a.affine a.shape b.affine b.shape with
+    | error e => simp [hm, bind, Except.bind] at h
+    | ok vs =>
+      cases hn : mergeNv a.nvertices b.nvertices with
+      | error e => simp [hm, hn, bind, Except.bind] at h
+      | ok nv =>
+        simp only [hm, hn, bind, Except.bind, parcelsMk] at h
+        split at h
+        · injection h with h; subst h
+          refine ⟨by simp [Parcels.size], ?_⟩
+          simp only [Parcels.elements]
+          rw [zip3_append _ _ _ _ _ _ h1 h2]
+        · cases h
+
+
+/-- `a + b` on brain models: whenever it succeeds the length is the sum, and — provided no structure
+    is a volume in one operand and a surface in the other — the element descriptions are concatenated. -/
+theorem bm_add_elements (a b r : BM) (ha : a.Valid) (h : bmAdd a b = .ok r)
+    (hab : ∀ x ∈ a.name, dictHas b.nvertices x = true → dictHas a.nvertices x = true)
+    (hba : ∀ x ∈ b.name, dictHas a.nvertices x = true → dictHas b.nvertices x = true) :
+    r.size = a.size + b.size ∧ r.elements = a.elements ++ b.elements ∧ r.Valid := by
+  unfold bmAdd at h
+  cases hm : mergeVolume a.affine a.shape b.affine b.shape with
+  | error e => simp [hm, bind, Except.bind] at h
+  | ok vs =>
+    cases hn : mergeNv a.nvertices b.nvertices with
+    | error e => simp [hm, hn, bind, Except.bind] at h
+    | ok nv =>
+      simp only [hm, hn, bind, Except.bind] at h
+      obtain ⟨f1, f2, f3, f4⟩ := bmMk_fields _ _ _ _ _ _ _ h
+      have hhas := mergeNv_has _ _ _ hn
+      refine ⟨by simp [BM.size, f1], ?_, bmMk_valid _ _ _ _ _ _ _ h⟩
+      simp only [BM.elements, f1, f2, f3, f4, elements_prune]
+      rw [zip3_append _ _ _ _ _ _ ha.lvox ha.lvert, List.map_append]
+      congr 1
+      · apply List.map_congr_left
+        intro e he
+        have hx := mem_zip3_fst _ _ _ e he
+        have : dictHas nv e.1 = dictHas a.nvertices e.1 := by
+          rw [hhas]
+          cases h1 : dictHas a.nvertices e.1 <;> cases h2 : dictHas b.nvertices e.1 <;> simp
+          have := hab e.1 hx h2; rw [h1] at this; cases this
+        simp only [bmElem, this]
+      · apply List.map_congr_left
+        intro e he
+        have hx := mem_zip3_fst _ _ _ e he
+        have : dictHas nv e.1 = dictHas b.nvertices e.1 := by
+          rw [hhas]
+          cases h1 : dictHas a.nvertices e.1 <;> cases h2 : dictHas b.nvertices e.1 <;> simp
+          have := hba e.1 hx h1; rw [h2] at this; cases this
+        simp only [bmElem, this]
+
+example : (bmAdd ⟨[0], [(-1, -1, -1)], [2], none, none, [(0, 4)]⟩
+      ⟨[1, 0], [(1, 1, 1), (-1, -1, -1)], [-1, 3], some 2, some (2, 2, 2), [(0, 4)]⟩).map BM.elements
+    = .ok [.surf 0 2, .vox 1 (1, 1, 1), .surf 0 3] := by decide
+
+example : (scalarAdd ⟨[1], [4]⟩ ⟨[2, 3], [5, 6]⟩).map Scalar.elements = .ok [(1, 4), (2, 5), (3, 6)] ∧
+    (parcelsAdd ⟨[1], [7], [4], some 1, some (2, 2, 2), [(0, 4)]⟩ ⟨[2], [8], [5], none, none, [(0, 4), (1, 6)]⟩).map
+      (fun r => (r.elements, r.nvertices)) = .ok ([(1, 7, 4), (2, 8, 5)], [(0, 4), (1, 6)]) ∧
+    parcelsAdd ⟨[1], [7], [4], none, none, [(0, 4)]⟩ ⟨[2], [8], [5], none, none, [(0, 5)]⟩ = .error .valueError := by
+  decide
+
+/-! ## BrainModelAxis runs (iter_structures) -/
+
+/-- expanding the runs of `iter_structures` (name repeated `stop - start` times, in order) gives back
+    the name list — for every non-empty list, interleaved structures included -/
+theorem runs_roundtrip (names : List Nat) (rs : List Run) (h : runs names = .ok rs) :
+    expandRuns rs = names := by
+  cases names with
+  | nil => simp [runs] at h
+  | cons x xs =>
+    simp only [runs] at h
+    injection h with h; subst h
+    simpa using runsGo_expand (x :: xs) x 0 0 (Nat.le_refl 0)
+
+example : runs [0, 0, 1, 0] = .ok [⟨0, 0, 2⟩, ⟨1, 2, 3⟩, ⟨0, 3, 4⟩] := by decide
+
+/-- the run slices tile `[0, len)` with non-empty consecutive intervals -/
+theorem runs_tile (names : List Nat) (rs : List Run) (h : runs names = .ok rs) :
+    Tiles 0 rs names.length ∧ rs ≠ [] := by
+  cases names with
+  | nil => simp [runs] at h
+  | cons x xs =>
+    simp only [runs] at h
+    injection h with h; subst h
+    simp only [runsGo, ne_eq, not_true_eq_false, if_false]
+    constructor
+    · have := runsGo_tiles xs x 0 1 (by omega)
+      simpa [Nat.add_comm] using this
+    · obtain ⟨r, rs, hr, _⟩ := runsGo_head xs x 0 1
+      simp [hr]
+
+/-- runs are maximal: neighbouring runs have different structure names -/
+theorem runs_maximal (names : List Nat) (rs : List Run) (h : runs names = .ok rs) : Maximal rs := by
+  cases names with
+  | nil => simp [runs] at h
+  | cons x xs =>
+    simp only [runs] at h
+    injection h with h; subst h
+    exact runsGo_maximal _ _ _ _
+
+
+/-! ## to_mapping / from_index_mapping -/
+
+/-- `to_mapping` on a valid axis emits one brain model per run: offset = run start, count = run length,
+    surface/voxel type by membership of the structure in `nvertices`, carrying that run's slice of the
+    vertex (resp. voxel) column. -/
+theorem to_mapping_spec (a : BM) (hv : a.Valid) :
+    ∃ rs, runs a.name = .ok rs ∧
+      bmToMapping a = .ok ⟨rs.map (mkRec a),
+        if (rs.map (mkRec a)).any (fun r => !r.surf) then some (a.shape, a.affine) else none⟩ := by
+  obtain ⟨rs, hruns⟩ := runs_ok_of_ne a.name hv.ne
+  have hT := (runs_tile a.name rs hruns).1
+  have hbounds := (Tiles_bounds rs 0 _ hT).2
+  have hrecs := recsOf_spec a hv rs (fun r hr => ⟨(hbounds r hr).2.1, (hbounds r hr).2.2⟩)
+  exact ⟨rs, hruns, by simp only [bmToMapping, hruns, hrecs, bind, Except.bind, pure, Except.pure]⟩
+
+/-- `from_index_mapping (to_mapping axis)` is `axis`: same names, same element descriptions, same
+    `nvertices` (as a dict), same affine and volume shape — for every valid brain-model axis, with any
+    interleaving of structures. -/
+theorem bm_mapping_roundtrip (a : BM) (hv : a.Valid) :
+    ∃ m r, bmToMapping a = .ok m ∧ bmFromMapping m = .ok r ∧
+      r.name = a.name ∧ r.elements = a.elements ∧
+      (∀ x, dictGet r.nvertices x = dictGet a.nvertices x) ∧
+      r.affine = a.affine ∧ r.shape = a.shape ∧ r.Valid := by
+  obtain ⟨rs, hruns⟩ := runs_ok_of_ne a.name hv.ne
+  have hE := runs_roundtrip a.name rs hruns
+  have hT := (runs_tile a.name rs hruns).1
+  have hbounds := (Tiles_bounds rs 0 _ hT).2
+  have hrecs := recsOf_spec a hv rs (fun r hr => ⟨(hbounds r hr).2.1, (hbounds r hr).2.2⟩)
+  obtain ⟨hasVox, hV⟩ : ∃ b : Bool, b = (rs.map (mkRec a)).any (fun r => !r.surf) := ⟨_, rfl⟩
+  obtain ⟨m, hm⟩ : ∃ m : BMMap, m = ⟨rs.map (mkRec a), if hasVox then some (a.shape, a.affine) else none⟩ :=
+    ⟨_, rfl⟩
+  have hto : bmToMapping a = .ok m := by
+    simp only [bmToMapping, hruns, hrecs, bind, Except.bind, pure, Except.pure]
+    rw [← hV, hm]
+  obtain ⟨st', e1, e2, e3, e4, e5⟩ := fromLoop_spec a hv rs 0 hT
+    ⟨List.replicate a.name.length (-1, -1, -1), List.replicate a.name.length (-1), [], []⟩ [] []
+    (by simp) rfl (by simp) rfl
+  simp only [List.nil_append] at e2 e3 e4
+  rw [hE] at e2
+  obtain ⟨c1, c2, c3, c4⟩ := pieces_checks a hv rs 0 hT (by simpa using hE)
+  simp only [List.drop_zero, Nat.sub_zero] at c1 c2 c3 c4
+  have hflags : surfFlags (nvAfter a [] rs) a.name = surfFlags a.nvertices a.name := by
+    unfold surfFlags
+    apply List.map_congr_left
+    intro x _
+    exact (nvFinal_spec a hv rs hE x).1
+  -- the volume handed to the constructor
+  have hvolarg : (surfFlags a.nvertices a.name).all id = false → hasVox = true := by
+    intro hall
+    rw [List.all_eq_false] at hall
+    obtain ⟨f, hf, hff⟩ := hall
+    simp only [surfFlags, List.mem_map] at hf
+    obtain ⟨x, hx, hxf⟩ := hf
+    rw [← hE] at hx
+    obtain ⟨r, hr, hrx⟩ := mem_expandRuns rs x hx
+    rw [hV, List.any_eq_true]
+    refine ⟨mkRec a r, List.mem_map.mpr ⟨r, hr, rfl⟩, ?_⟩
+    simp only [mkRec, hrx, hxf]
+    simpa using hff
+  obtain ⟨aff, haff⟩ : ∃ x : Option Nat, x = if hasVox then a.affine else none := ⟨_, rfl⟩
+  obtain ⟨shp, hshp⟩ : ∃ x : Option Shape, x = if hasVox then a.shape else none := ⟨_, rfl⟩
+  obtain ⟨res, hres⟩ : ∃ r : BM, r = ⟨a.name, rs.flatMap (voxPiece a), rs.flatMap (vertPiece a),
+    if (surfFlags (nvAfter a [] rs) a.name).all id then none else aff,
+    if (surfFlags (nvAfter a [] rs) a.name).all id then none else shp, pruneNv a.name (nvAfter a [] rs)⟩ :=
+    ⟨_, rfl⟩
+  have hmk : bmMk a.name (rs.flatMap (voxPiece a)) (rs.flatMap (vertPiece a)) aff shp (nvAfter a [] rs)
+      = .ok res := by
+    rw [hres]
+    exact bmMk_ok a.name (rs.flatMap (voxPiece a)) (rs.flatMap (vertPiece a)) aff shp (nvAfter a [] rs)
+      hv.ne c4 c3 (by rw [hflags]; exact c1) (by rw [hflags]; exact c2)
+      (by
+        rw [hflags]; intro hall
+        have := hvolarg hall
+        rw [haff, hshp]
+        simp only [this, if_true]
+        exact hv.vol hall)
+  have hfrom : bmFromMapping m = .ok res := by
+    rw [hm]
+    simp only [bmFromMapping, sum_counts a rs 0 _ hT, Nat.sub_zero, e1, bind, Except.bind]
+    rw [e2, e3, e4, e5, ← hV]
+    cases hb : hasVox
+    · have ha : aff = none := by rw [haff, hb]; rfl
+      have hs : shp = none := by rw [hshp, hb]; rfl
+      rw [ha, hs] at hmk
+      simp only [Bool.false_eq_true, if_false]
+      exact hmk
+    · have ha : aff = a.affine := by rw [haff, hb]; rfl
+      have hs : shp = a.shape := by rw [hshp, hb]; rfl
+      rw [ha, hs] at hmk
+      simp only [if_true]
+      exact hmk
+  refine ⟨m, res, hto, hfrom, by rw [hres], ?_, ?_, ?_, ?_, bmMk_valid _ _ _ _ _ _ _ hmk⟩
+  · have := pieces_elements a hv rs 0 hT (by simpa using hE)
+    simp only [List.drop_zero] at this
+    rw [hres]
+    simp only [BM.elements, elements_prune]
+    have hcongr : ∀ (l : List (Nat × Vox × Int)), (∀ e ∈ l, e.1 ∈ a.name) →
+        l.map (bmElem (nvAfter a [] rs)) = l.map (bmElem a.nvertices) := by
+      intro l hl
+      apply List.map_congr_left
+      intro e he
+      simp only [bmElem, (nvFinal_spec a hv rs hE e.1).1]
+    rw [hcongr _ (fun e he => mem_zip3_fst _ _ _ e he), this]
+  · intro x
+    rw [hres]
+    simp only [dictGet_prune]
+    split
+    · exact (nvFinal_spec a hv rs hE x).2
+    · rename_i hx
+      have : dictHas a.nvertices x = false := by
+        cases h : dictHas a.nvertices x
+        · rfl
+        · obtain ⟨p, hp, hpx⟩ := (dictHas_iff _ _).mp h
+          exact absurd (by rw [← hpx]; exact hv.keys p hp) hx
+      rw [dictGet_of_not_has _ _ this]
+  · rw [hres]
+    simp only [hflags]
+    cases hall : (surfFlags a.nvertices a.name).all id
+    · simp [haff, hvolarg hall]
+    · simp [(hv.volNone hall).1]
+  · rw [hres]
+    simp only [hflags]
+    cases hall : (surfFlags a.nvertices a.name).all id
+    · simp [hshp, hvolarg hall]
+    · simp [(hv.volNone hall).2]
+
+
+/-- a concrete valid axis with interleaved structures (surface 0, volume 1, surface 0 again) -/
+def exampleBM : BM :=
+  ⟨[0, 1, 1, 0], [(-1, -1, -1), (0, 1, 2), (1, 1, 1), (-1, -1, -1)], [3, -1, -1, 0], some 7, some (2, 3, 4), [(0, 4)]⟩
+
+example : exampleBM.Valid :=
+  bm_valid_of_mk [0, 1, 1, 0] [(-1, -1, -1), (0, 1, 2), (1, 1, 1), (-1, -1, -1)] [3, -1, -1, 0] (some 7)
+    (some (2, 3, 4)) [(0, 4), (5, 9)] exampleBM (by decide)
+
+example : (bmToMapping exampleBM >>= bmFromMapping).map BM.elements = .ok exampleBM.elements := by decide
 
 end Nb.C18
